@@ -238,7 +238,7 @@ if __name__ == '__main__':
         f.write('Fixpoint mism_ (k : nat) (cs : list bool) : list nat := match cs with nil => nil | c :: r => if c then mism_ (S k) r else k :: mism_ (S k) r end.\n')
         f.write('Eval vm_compute in (mism_ 0%nat cases_).\n')
     t0 = time.time()
-    p = subprocess.run(['timeout', '900', 'coqc', '-R', env.COQ, 'Depccg', '-Q', work, 'WC07prolog', fn], capture_output=True, text=True)
+    p = subprocess.run(['timeout', '900', env.COQC, '-R', env.COQ, 'Depccg', '-Q', work, 'WC07prolog', fn], capture_output=True, text=True)
     m = re.search(r'=\s*(\[[^\]]*\]|nil)\s*:\s*list nat', p.stdout.replace('\n', ' '))
     print(f'{len(cases)} cases, {skipped} outside the lower-casing domain, {time.time() - t0:.1f}s, rc={p.returncode}')
     print('mismatches:', m.group(1) if m else (p.stdout + p.stderr)[-3000:])
